@@ -263,20 +263,27 @@ NjSeed == [ex |-> TRUE, f |-> [x \in NjFields |-> IF x = "a" THEN [v |-> 9, u |-
 NjPre == << [store |-> NjNone, mem |-> NjNone], [store |-> NjSeed, mem |-> NjSeed] >>
 \* f[x] = 9: the seeded value again (unchanged value keeps its user); otherwise base value + who
 NjCatalog == << [k |-> "upd", f |-> [a |-> 10], who |-> 0], [k |-> "upd", f |-> [b |-> 20], who |-> 0],
-                [k |-> "upd", f |-> [a |-> 9], who |-> 0], [k |-> "upd", f |-> [a |-> 10, b |-> 20], who |-> 0] >>
+                [k |-> "upd", f |-> [a |-> 9], who |-> 0], [k |-> "upd", f |-> [a |-> 10, b |-> 20], who |-> 0],
+                [k |-> "del", f |-> <<>>, who |-> 0] >>   \* DELETE key/<id> (Data.DeleteData)
 NjVal(r, x) == IF r.f[x] = 9 THEN 9 ELSE r.f[x] + r.who
 NjMerge(orig, r) ==
     [ex |-> TRUE, f |-> [x \in NjFields |-> IF x \in DOMAIN r.f /\ orig.f[x].v # NjVal(r, x)
                                              THEN [v |-> NjVal(r, x), u |-> r.who] ELSE orig.f[x]]]
-NjApply(r, S) == Out([store |-> NjMerge(S.store, r), mem |-> NjMerge(S.store, r)], <<>>, TRUE)
+NjApply(r, S) == IF r.k = "del" THEN Out([store |-> NjNone, mem |-> NjNone], <<>>, TRUE)
+                 ELSE Out([store |-> NjMerge(S.store, r), mem |-> NjMerge(S.store, r)], <<>>, TRUE)
 NjExec(a, r, S, L) ==
     CASE a = "n_rd" -> Out(S, Upd(L, [orig |-> S.store]), TRUE)
       [] a = "n_wrMem" -> Out([S EXCEPT !.mem = NjMerge(L.orig, r)], L, TRUE)
       [] a = "n_wrStore" -> Out([S EXCEPT !.store = NjMerge(L.orig, r)], L, TRUE)
+      [] a = "n_delMem" -> Out([S EXCEPT !.mem = NjNone], L, TRUE)
+      [] a = "n_delStore" -> Out([S EXCEPT !.store = NjNone], L, TRUE)
 \* intended = code since the fix "neuronjson serializes the read-merge-write" (Data.updateMu); before it
 \* only the in-memory write was under the memdb mutex:
 \* << Gate("start"), Do("n_rd"), Gate("neuronjson.storeAndUpdate"), Do("n_wrMem"), Do("n_wrStore") >>
-NjProg(r) == << Gate("start"), Acq({"nj.updateMu"}), Do("n_rd"), Gate("neuronjson.storeAndUpdate"), Do("n_wrMem"), Do("n_wrStore"), Rel({"nj.updateMu"}) >>
+\* a deletion removes the annotation from the in-memory database, then from the store, under the same lock
+NjProg(r) == IF r.k = "del"
+             THEN << Gate("start"), Acq({"nj.updateMu"}), Do("n_delMem"), Do("n_delStore"), Rel({"nj.updateMu"}) >>
+             ELSE << Gate("start"), Acq({"nj.updateMu"}), Do("n_rd"), Gate("neuronjson.storeAndUpdate"), Do("n_wrMem"), Do("n_wrStore"), Rel({"nj.updateMu"}) >>
 NjAnnObs(A) == [ex |-> A.ex, f |-> {[x |-> x, v |-> A.f[x].v, u |-> A.f[x].u] : x \in {y \in NjFields : A.f[y].v # 0}}]
 NjObs(S) == [store |-> NjAnnObs(S.store), mem |-> NjAnnObs(S.mem)]
 
